@@ -266,17 +266,29 @@ async def _async_history(seed: int, udp: bool, directed: int | None = None, real
     tasks = [asyncio.ensure_future(actor(a)) for a in (1, 2, 3)]
     done, pending = await asyncio.wait(tasks, timeout=12)
     # whatever is still serving is stopped by the harness (actor 9): every call must return
+    stuck = False
+
+    async def bounded(what: str) -> None:
+        # (a lifecycle call of the harness that does not return is a verdict, not a reason for the check to wait for ever)
+        nonlocal stuck
+        t = asyncio.ensure_future(do_call(9, what))
+        d, _p = await asyncio.wait([t], timeout=60)
+        if not d:
+            stuck = True
+            t.cancel()
+
     for _ in range(4):
         # (an actor may serve again after the harness stopped it: its plan is not over)
-        if not pending:
+        if not pending or stuck:
             break
-        await do_call(9, "shutdown")
+        await bounded("shutdown")
         done, pending = await asyncio.wait(tasks, timeout=30)
-    await asyncio.sleep(2)
-    ev("probe", observe=True)
-    await do_call(9, "close")
-    done, pending = await asyncio.wait(tasks, timeout=30)
-    if pending:
+    if not stuck:
+        await asyncio.sleep(2)
+        ev("probe", observe=True)
+        await bounded("close")
+        done, pending = await asyncio.wait(tasks, timeout=30)
+    if pending or stuck:
         ev("hang")
         for t in pending:
             t.cancel()
@@ -353,6 +365,9 @@ def _standalone_history(scenario: str) -> dict[str, Any]:
         async def handle(self, client: Any) -> Any:
             req = yield
             await client.send_packet(req)
+            if req == "bye":
+                # the server closes this connection first, and gracefully: its port keeps the connection in TIME_WAIT afterwards
+                await client.aclose()
 
     def make(*a: Any, **kw: Any) -> list[Any]:
         lst = memtransport.MemListener(backend, extra=_listener_extra(lsock))
@@ -363,8 +378,19 @@ def _standalone_history(scenario: str) -> dict[str, Any]:
     port = 0
     if real:
         # the listeners the asyncio backend builds, on a port chosen beforehand: every serve_forever() binds it again
-        port = lsock.getsockname()[1]
+        # (a port outside the range the kernel hands out to connecting sockets, so that nobody takes it between two serve calls)
         lsock.close()
+        for k in range(50):
+            port = 20000 + (os.getpid() * 7 + k * 131) % 10000
+            probe = socket.socket(socket.AF_INET, socket.SOCK_STREAM)
+            try:
+                probe.bind(("127.0.0.1", port))
+            except OSError:
+                continue
+            finally:
+                probe.close()
+            break
+        lsock = socket.socket(socket.AF_INET, socket.SOCK_STREAM)
     else:
         backend.tcp_listeners_factory = make
     server = StandaloneTCPNetworkServer("127.0.0.1", port, StreamProtocol(StringLineSerializer()), H(), backend=backend)
@@ -521,6 +547,14 @@ def _standalone_history(scenario: str) -> dict[str, Any]:
                 if not wait_up(1):
                     break
                 # a connection that the server will close first (its port keeps the connection in TIME_WAIT afterwards)
+                c = socket.create_connection(("127.0.0.1", port), timeout=5)
+                c.sendall(b"bye\n")
+                try:
+                    while c.recv(100):  # the answer, then the end of the stream: the server closed first
+                        pass
+                except OSError:
+                    pass
+                c.close()
                 c = socket.create_connection(("127.0.0.1", port), timeout=5)
                 c.sendall(b"hello\n")
                 buf = b""
